@@ -550,7 +550,7 @@ func c10Exec(x *Ctx) {
 					b = Encode(rep, p.Dotu)
 					x.Fault("unknown-tag")
 				} else {
-					b = garble(b, fparam2, msize, x)
+					b = garble(b, fparam2, p.Msize, x) // sizes relative to what was negotiated, which may be less than the client proposed
 				}
 				r.Bad = true
 			} else if holdpct > 0 && rt.Choose(100) < holdpct {
@@ -564,7 +564,7 @@ func c10Exec(x *Ctx) {
 				b = Encode(rep, p.Dotu)
 				x.Fault("unknown-tag")
 			} else {
-				b = garble(b, fparam2, msize, x)
+				b = garble(b, fparam2, p.Msize, x) // sizes relative to what was negotiated, which may be less than the client proposed
 			}
 			r.Bad = true
 		}
@@ -807,6 +807,18 @@ func prDesc(pr *PReq) string {
 func garble(b []byte, variant int, msize uint32, x *Ctx) []byte {
 	b = append([]byte(nil), b...)
 	put := func(v uint32) { b[0], b[1], b[2], b[3] = byte(v), byte(v>>8), byte(v>>16), byte(v>>24) }
+	if variant%29 == 28 {
+		// a frame whose size is legal but whose count field, multiplied by the element size, wraps around:
+		// Rwalk announcing 5042 (or 10083) qids and carrying 10 (or 3) bytes
+		tag := []byte{b[5], b[6]}
+		n, body := 5042, 10
+		if variant%2 == 1 {
+			n, body = 10083, 3
+		}
+		b = append([]byte{byte(9 + body), 0, 0, 0, Rwalk, tag[0], tag[1], byte(n), byte(n >> 8)}, make([]byte, body)...)
+		x.Fault("garbage-count-wraps")
+		return b
+	}
 	switch variant % 12 {
 	case 0:
 		b[4] = 0
